@@ -155,6 +155,8 @@ func toCodeBasic(t types.BasicKind) *jen.Statement {
 		return jen.Uint64()
 	case types.Uintptr:
 		return jen.Uintptr()
+	case types.UnsafePointer:
+		return jen.Qual("unsafe", "Pointer")
 	case types.Bool:
 		return jen.Bool()
 	case types.Complex128:
